@@ -27,6 +27,7 @@ def main():
     ap.add_argument("--demo-cmd", required=True)
     ap.add_argument("--needs", default=""); ap.add_argument("--summary", default="")
     ap.add_argument("--expect", default="")
+    ap.add_argument("--tier", default="quick")
     a = ap.parse_args()
     wt = a.wt
     out = os.path.join(HERE, "seeded", a.id)
@@ -77,7 +78,7 @@ def main():
     ev = "/tmp/seed-ev"
     shutil.rmtree(ev, ignore_errors=True); os.makedirs(ev)
     env = dict(os.environ, VERIF_REPO=wt, VERIF_EVIDENCE_DIR=ev)
-    rc4, o4 = sh(f"./check {a.prop}", HERE, env=env)
+    rc4, o4 = sh(f"./check {a.prop}" + (" --tier thorough" if a.tier == "thorough" else ""), HERE, env=env)
     viol = [l[:400] for l in o4.splitlines() if "VIOLATION" in l or "UNRECOGNISED" in l or "MISSING" in l]
     shutil.rmtree(ev, ignore_errors=True)
     meta = {
@@ -85,7 +86,7 @@ def main():
         "files": {"patch": "patch.diff", "demo": sorted(untracked), "demo_registration": "demo_reg.diff" if reg.strip() else None},
         "confirmed": {"demo_fails_with_change": rc1 != 0, "demo_passes_without_change": rc2 == 0, "pinned_suite_passes_with_change": rc3 == 0},
         "ran": ran,
-        "verif_check": {"cmd": f"VERIF_REPO=<worktree> ./check {a.prop}", "exit": rc4, "caught": rc4 == 1 and bool(viol), "reports": viol[:6]},
+        "verif_check": {"cmd": f"VERIF_REPO=<worktree> ./check {a.prop}" + (" --tier thorough" if a.tier == "thorough" else ""), "exit": rc4, "caught": rc4 == 1 and bool(viol), "reports": viol[:6]},
     }
     json.dump(meta, open(os.path.join(out, "meta.json"), "w"), indent=1)
     print(json.dumps({k: meta[k] for k in ("id", "confirmed")}, indent=None))
